@@ -58,11 +58,15 @@ func (k Keeper) handleBridgeHook(ctx sdk.Context, data []byte, hookMaxGas uint64
 			return
 		}
 
-		_, err = handler(cacheCtx, msg)
+		res, err := handler(cacheCtx, msg)
 		if err != nil {
 			reason = fmt.Sprintf("Failed to execute Msg: %s", err)
 			return
 		}
+
+		// the msg service router hands every message a fresh event manager; without this the events of
+		// the hook messages (e.g. a token withdrawal initiated by the hook) never reach the transaction
+		cacheCtx.EventManager().EmitEvents(res.GetEvents())
 	}
 
 	commit()
